@@ -172,10 +172,10 @@ def load_known(prop):
 
 
 def _matches(finding, v):
-    if finding.get("clause") and finding["clause"] != v["clause"]:
-        return False
-    if finding.get("site") and finding["site"] != v["site"]:
-        return False
+    for fld in ("clause", "site"):
+        want = finding.get(fld)
+        if want and (v[fld] not in want if isinstance(want, list) else v[fld] != want):
+            return False
     for k, want in (finding.get("match") or {}).items():
         have = v["features"].get(k)
         if isinstance(want, list):
